@@ -95,3 +95,149 @@ def process_run_contract(ex, lid='L2', inject=None, cls=PW):
         inject=inject,
         options={'__opaque_call__': user_call, 'target_raises': ['AnyException', 'AnyBaseException'], 'recv_closed_check': False,
                  '__event_wait__': lambda ex_, ev: None})
+
+
+# ------------------------------------------------------------------------------ injection mode (C03 / C01 / C06 / C16.L2)
+def try_line(ex, qualname, first_stmt=False):
+    import ast as _ast
+    fi = ex.repo.func(qualname)
+    for n in _ast.walk(fi.node):
+        if isinstance(n, _ast.Try):
+            return n.body[0].lineno if first_stmt else n.lineno
+    return 0
+
+
+def user_call_inj(ex, f, args, kwargs, node):
+    """target under graceful terminate: it may return, raise its own exception, or be interrupted by the pending
+    WorkerTerminatedError while it runs (it lets the exception propagate) - the latter consumes the injection budget"""
+    env = ex.ghost['__childenv__']
+    n = ex.ghost['ncalls'] + 1
+    ex.ghost['ncalls'] = n
+    h = ex.heap[env['self'].addr]
+    h.attrs['_user_state'] = VSym(child_state_f(n))
+    if ex.inject is not None and ex.injected < ex.inject.budget:
+        if ex.choose(2, 'wte-in-target') == 1:
+            ex.injected += 1
+            ex.note('wte@target')
+            ex.ghost.setdefault('__injections__', []).append(('wte', 'target', getattr(node, 'lineno', 0), 'inside the target', 'during'))
+            ex.ghost['target_interrupted'] = True
+            raise common.PyRaise(VExc('WorkerTerminatedError', [VStr('terminate called')]))
+    r = common.opaque_call(ex, f, args, kwargs, node)
+    ex.ghost['target_returned'] = True
+    return r
+
+
+def is_wte(term):
+    return z3.And(Val.is_v_exc(term), Val.vecls(term) == smt.cls_code('WorkerTerminatedError'))
+
+
+def c03_pair_ok(ex, c, pair):
+    """pair = (flag, value) reported for a worker on which exactly one graceful terminate may have landed"""
+    lst = Val.vitems(pair)
+    flag = Val.vb(ValList.vl_hd(lst))
+    value = ValList.vl_hd(ValList.vl_tl(lst))
+    tgt = c.env['target'].t
+    val = z3.If(tgt == Val.v_none, Val.v_none, common.apply_f(tgt, c.env['args0'].e, c.env['kw0'].t))
+    own_ok = z3.And(z3.Or(z3.BoolVal(bool(ex.ghost.get('target_returned'))), tgt == Val.v_none), flag, value == val)
+    texc = ex.ghost.get('target_exc')
+    own_err = z3.And(z3.Not(flag), value == lower(texc, ex)) if texc is not None else z3.BoolVal(False)
+    terminated = z3.And(z3.Not(flag), is_wte(value))
+    return z3.Or(own_ok, own_err, terminated)
+
+
+def process_run_injected(ex, lid, prop, cls=PW, budget=1):
+    tl = try_line(ex, PW + '._run', first_stmt=True)     # the statement that reports the child's identity
+
+    def setup(ex_, env):
+        process_child(ex_, env, cls)
+        ex_.ghost['__childenv__'] = env
+
+    def region(interp, st, fr):
+        if fr.fi.name == '_run':
+            return st.lineno > tl          # from "identity reported" (the constructor returns only after that) to exit
+        return True
+
+    def reported_outcome(c):
+        ex_ = c.ex
+        out = ex_.abs_classes['Conn'].get(ex_, c.env['out'], 'out')
+        h = ex_.heap[c.env['self'].addr].attrs
+        last = out[z3.Length(out) - 1]
+        lst = Val.vitems(last)
+        return z3.And(z3.Length(out) >= 2, c03_pair_ok(ex_, c, ValList.vl_hd(lst)))
+    reported_outcome.__doc__ = ('C03.L2 (process): wherever the terminate request lands, the LAST message in the result pipe is a final message whose '
+                                'pair is (False, WorkerTerminatedError) or the target\'s own outcome - the latter only if the target had completed')
+
+    def state_reported(c):
+        ex_ = c.ex
+        out = ex_.abs_classes['Conn'].get(ex_, c.env['out'], 'out')
+        h = ex_.heap[c.env['self'].addr].attrs
+        last = out[z3.Length(out) - 1]
+        st = ValList.vl_hd(ValList.vl_tl(Val.vitems(last)))
+        return z3.Implies(z3.Length(out) >= 2, st == lower(h['_user_state'], ex_))
+    state_reported.__doc__ = 'C16.L2: every final message carries the user_state as last assigned in the child'
+
+    def well_formed(c):
+        ex_ = c.ex
+        out = ex_.abs_classes['Conn'].get(ex_, c.env['out'], 'out')
+        k = c.env['kf'].e
+        return z3.Implies(z3.And(k >= 1, k < z3.Length(out)), workers.final_msg_inv(ex_, out[k], None))
+    well_formed.__doc__ = 'channel invariant B.1: every message after the identity is ((ok, value), user_state)'
+
+    def setup2(ex_, env):
+        setup(ex_, env)
+        env['kf'] = VInt(ex_.fresh('kf', smt.Int))
+    return Contract(
+        cls + '._run', lid=lid, name=f'{prop}.{lid} ProcessWorker._run under one graceful terminate landing at any statement boundary (and inside the target)',
+        params={'self': ('const', None)}, self_class=cls, setup=setup2,
+        all_exits=[reported_outcome, state_reported, well_formed],
+        raises={'AnyBaseException': None, 'WorkerTerminatedError': None}, raises_only=['AnyBaseException', 'WorkerTerminatedError'],
+        inject=InjectCfg([cls + '._run', PW + '._run', W + '.do_work', W + '.run'], budget=budget, kinds=('wte',), region=region, split_store=True),
+        options={'__opaque_call__': user_call_inj, 'target_raises': ['AnyException'], 'recv_closed_check': False,
+                 '__event_wait__': lambda ex_, ev: None})
+
+
+def thread_child(ex, env, cls=TW):
+    I = ex.interp
+    ci = ex.repo.cls(cls)
+    ev = common.new_event(ex)
+    cur_tid = ex.ext_models['threading.get_native_id'](ex, [], {})
+    ptid = I.sym('parent_tid')
+    ex.assume(ptid.t != cur_tid.t)
+    target = I.sym('target')
+    args = ex.alloc(HSymList(ex.fresh('args', SeqVal)))
+    kwargs = common.new_odict(ex, ex.fresh('kwargs', Val))
+    attrs = {'_startup_sync': ev, '_tid': ptid, '_ident': I.sym('pident'), '_set_names': I.sym('set_names', 'bool'), '_name': I.sym('name'),
+             '_started': VBool(True), '_result': NONE, '_target': target, '_args': args, '_kwargs': kwargs, '_user_state': I.sym('state0')}
+    self_v = ex.alloc(HObj(ci, attrs))
+    env.update(self=self_v, ev=ev, target=target, args0=VSeq(ex.heap[args.addr].seq),
+               kw0=VSym(ex.abs_classes['ODict'].get(ex, kwargs, 'content')))
+    ex.ghost['calls'] = z3.Empty(SeqVal)
+    ex.ghost['ncalls'] = z3.IntVal(0)
+    ex.ghost['__childenv__'] = env
+    return self_v
+
+
+def thread_run_injected(ex, lid, prop, cls=TW, budget=1):
+    tl = try_line(ex, TW + '._run')
+
+    def region(interp, st, fr):
+        if fr.fi.name == '_run':
+            return st.lineno >= tl
+        return True
+
+    def recorded_outcome(c):
+        ex_ = c.ex
+        h = ex_.heap[c.env['self'].addr].attrs
+        r = h['_result']
+        if r is NONE:
+            return z3.BoolVal(False)
+        return c03_pair_ok(ex_, c, lower(r, ex_))
+    recorded_outcome.__doc__ = ('C03.L2 / C01.L2 (thread): when the child thread ends, _result is (False, WorkerTerminatedError) or the target\'s own outcome '
+                                '(only if the target had completed) - never None, whatever statement the request landed on')
+    return Contract(
+        TW + '._run', lid=lid, name=f'{prop}.{lid} ThreadWorker._run under one graceful terminate landing at any statement boundary (and inside the target)',
+        params={'self': ('const', None)}, self_class=cls, setup=lambda ex_, env: thread_child(ex_, env, cls),
+        all_exits=[recorded_outcome],
+        raises={'WorkerTerminatedError': None}, raises_only=['WorkerTerminatedError'],
+        inject=InjectCfg([TW + '._run', W + '.do_work', W + '.run'], budget=budget, kinds=('wte',), region=region, split_store=True),
+        options={'__opaque_call__': user_call_inj, 'target_raises': ['AnyException', 'AnyBaseException']})
